@@ -426,7 +426,7 @@ pub fn run(ctx: &mut Ctx) {
     let cfgs2 = cfgs.clone();
     ctx.family("inject", ncfg, move |ctx, rng, ci| {
         let cfg = &cfgs2[ci as usize];
-        let dir = ctx.scratch("c07");
+        let dir = ctx.scratch_keep("c07");
         let dry = launch(ctx, cfg, &dir, &[], None, None);
         judge(ctx, cfg, &dry, "dry-run", Some(false));
         ctx.count("configurations", 1);
@@ -472,12 +472,13 @@ pub fn run(ctx: &mut Ctx) {
                 }
             }
         }
+        let _ = std::fs::remove_dir_all(&dir);
     });
     // ---- the process ignores SIGCHLD (children are reaped by the kernel behind the library's back):
     //      the error must still be that of the step that failed
     ctx.family("sigchld-ignored", ctx.n(48, 400), |ctx, rng, i| {
         let cfg = Cfg { sin: (i % 2) as u8, sout: (i % 2) as u8, serr: 0, detached: i % 4 >= 2, cwd: false, setuid: false, setgid: false, setpgid: false, exe_override: false, path_search: i % 3 == 0, env: false };
-        let dir = ctx.scratch("c07s");
+        let dir = ctx.scratch_keep("c07s");
         let kind = *rng.pick(&[k::DUP2, k::EXECVE, k::EXECVE, k::SETPGID, k::CHDIR]);
         let mut cfg = cfg;
         if kind == k::DUP2 {
@@ -501,6 +502,7 @@ pub fn run(ctx: &mut Ctx) {
         ctx.count("launches_with_sigchld_ignored", 1);
         ctx.distinct(&format!("sigchld-ign|{}|{}|{}", cfg.name(), k::name(kind), e));
         judge(ctx, &cfg, &l, &format!("sigchld-ignored/child:{}", k::name(kind)), Some(true));
+        let _ = std::fs::remove_dir_all(&dir);
     });
     // ---- real causes
     let reals: Vec<&str> = vec!["missing", "directory", "mode0644", "bad-cwd", "cwd-is-file", "missing-on-path", "empty-path-entries", "noexec-on-path", "name-too-long", "garbage-file"];
@@ -513,7 +515,7 @@ pub fn run(ctx: &mut Ctx) {
             cfg.sout = 1;
             cfg.serr = 1;
         }
-        let dir = ctx.scratch("c07r");
+        let dir = ctx.scratch_keep("c07r");
         use std::os::unix::fs::PermissionsExt;
         let mut path_value = None;
         let prog: PathBuf = match cause {
@@ -523,7 +525,7 @@ pub fn run(ctx: &mut Ctx) {
                 dir.join("adir")
             }
             "mode0644" => {
-                std::fs::copy(&ctx.vchild, dir.join("noexec")).unwrap();
+                std::fs::write(dir.join("noexec"), b"#!/bin/true\n").unwrap();
                 std::fs::set_permissions(dir.join("noexec"), std::fs::Permissions::from_mode(0o644)).unwrap();
                 dir.join("noexec")
             }
@@ -542,7 +544,7 @@ pub fn run(ctx: &mut Ctx) {
                 PathBuf::from("vrep@c@h")
             }
             "noexec-on-path" => {
-                std::fs::copy(&ctx.vchild, dir.join("prog-noexec")).unwrap();
+                std::fs::write(dir.join("prog-noexec"), b"#!/bin/true\n").unwrap();
                 std::fs::set_permissions(dir.join("prog-noexec"), std::fs::Permissions::from_mode(0o644)).unwrap();
                 path_value = Some(OsString::from(format!("{}", dir.display())));
                 PathBuf::from("prog-noexec")
@@ -609,5 +611,6 @@ pub fn run(ctx: &mut Ctx) {
         ctx.distinct(&format!("real|{}|{}", cause, cfg.name()));
         judge(ctx, &cfg, &l, &format!("real:{}", cause), Some(true));
         ctx.count("real_causes", 1);
+        let _ = std::fs::remove_dir_all(&dir);
     });
 }
